@@ -195,3 +195,5 @@ func TestVerifC07Amf0(t *testing.T) {
 	}
 	vC07Drive(t, decs, helpers, fams, 400, 5000)
 }
+
+func FuzzVerifC07Amf0(f *testing.F) { vC07FuzzTarget(f, TestVerifC07Amf0) }
